@@ -12,6 +12,7 @@ def register(db):
     register_wrapper_scope(db)
     register_find_by_namespace(db)
     register_wrapper_child(db)
+    register_wildcard_child(db)
     P = ["C09"]
     db.add(Contract(
         "xsdata.formats.dataclass.parsers.utils:ParserUtils.normalize_content",
@@ -333,4 +334,22 @@ def register_wrapper_child(db):
                   f"call_arg('{CH}', 3) is ns_map and call_arg('{CH}', 4) == position and call_arg('{CH}', 5) == self.qname"),
                  ("the-node-the-parent-built-is-returned", f"result is call_result('{CH}')")],
         raises={"ParserError": True, "ConverterError": True, "XmlContextError": True}, properties=["C09", "C10"],
+    ))
+
+
+def register_wildcard_child(db):
+    """WildcardNode.child: a child of a generic (xs:any) element is again a generic node - built with the CHILD's own
+    attributes, prefix map and position, and the wildcard field / factory of its parent."""
+    from .c10_strictness import NODES
+    WN = f"{NODES}.wildcard:WildcardNode"
+
+    def wildcard(mk, base):
+        return mk.obj(WN, {"var": "opaque:XmlVar", "attrs": "opaque:PyDict", "ns_map": "opaque:PyDict", "position": "int", "factory": "opaque:Any"})
+
+    db.add(Contract(
+        f"{WN}.child", params={"self": wildcard, "qname": "str", "attrs": "opaque:PyDict", "ns_map": "opaque:PyDict", "position": "int"},
+        ensures=[("the-child-node-carries-the-child-element-own-scope-and-attributes",
+                  "result.ns_map is ns_map and result.attrs is attrs and result.position == position"),
+                 ("same-wildcard-field-and-factory", "result.var is self.var and result.factory is self.factory")],
+        raises={}, properties=["C09"],
     ))
